@@ -167,6 +167,17 @@ def _bool_eval(e: ast.AST, env: Dict[str, bool]):
         return bool(_bool_eval(e.left, env)) != bool(_bool_eval(e.right, env))
     if isinstance(e, ast.Call) and dotted(e.func) == "bool" and len(e.args) == 1:
         return bool(_bool_eval(e.args[0], env))
+    if isinstance(e, ast.Subscript) and isinstance(e.value, ast.Name) and isinstance(_MODULE_CONSTS.get(e.value.id), dict):
+        # a module-level literal table indexed by the flag: {False: "N", True: "T"}[bool(trans)]
+        return _MODULE_CONSTS[e.value.id][_bool_eval(e.slice, env)]
+    if isinstance(e, ast.Subscript) and isinstance(e.value, (ast.Dict, ast.Tuple, ast.List)):
+        k = _bool_eval(e.slice, env)
+        if isinstance(e.value, ast.Dict):
+            for kk, vv in zip(e.value.keys, e.value.values):
+                if _bool_eval(kk, env) == k:
+                    return _bool_eval(vv, env)
+            raise KeyError(U(e))
+        return _bool_eval(e.value.elts[int(k)], env)
     raise KeyError(U(e))
 
 
@@ -268,6 +279,10 @@ def lu(prog: Program, rep, x: ExcFlow) -> None:
             _MODULE_CONSTS[n_.targets[0].id] = n_.value.value
         elif isinstance(n_, ast.AnnAssign) and isinstance(n_.target, ast.Name) and isinstance(n_.value, ast.Constant):
             _MODULE_CONSTS[n_.target.id] = n_.value.value
+        v_ = getattr(n_, "value", None)
+        t_ = (n_.targets[0] if isinstance(n_, ast.Assign) and len(n_.targets) == 1 else getattr(n_, "target", None)) if v_ is not None else None
+        if isinstance(t_, ast.Name) and isinstance(v_, ast.Dict) and all(isinstance(k_, ast.Constant) for k_ in v_.keys) and all(isinstance(x_, ast.Constant) for x_ in v_.values):
+            _MODULE_CONSTS[t_.id] = {k_.value: x_.value for k_, x_ in zip(v_.keys, v_.values)}
     rs = returns_of(sv)
     if not rs:
         raise AnalysisError("LUSolver.solve: no return")
